@@ -401,6 +401,8 @@ theorem Inv.fmp4WriteMany {st : State} (h : Inv st) (ti : Nat) (l : List Sample)
 def singleOp (st : State) (op : WriteOp) : Prop :=
   (st.tcfg op.track).codec.isVideo = true ∨ (st.cfg.variant = .mpegts ∧ (st.tcfg op.track).codec = .aac)
 
+instance (st : State) (op : WriteOp) : Decidable (singleOp st op) := by unfold singleOp; infer_instance
+
 theorem Step1.before {a b c : State} (h1 : SameWin a b) (h2 : Step1 b c) : Step1 a c := by
   refine ⟨h2.cfg.trans h1.cfg, h2.len.trans h1.len, fun i hi => ?_⟩
   have w1 := h1.win i hi
